@@ -75,7 +75,6 @@ pub fn run_case(ctx: &Ctx, idx: u64) -> Vec<CaseOut> {
     let data = if is_mt { mt::stamped_data(&mut r, len, unit as usize, compressible) } else { gen::gen_data(&mut r, fam, len) };
     let spec = Spec { c: c.clone(), o };
     let cname = c.name();
-    let has_bcj = matches!(&c, Container::Xz { filters, .. } if filters.iter().any(|f| f.0 != 3));
     let desc0 = format!("{} fam={} len={}", match &c {
         Container::Xz { check, block, filters } => format!("Xz check={check} block={block:?} filters={} {}", c02::filters_desc(filters), gen::opts_desc(&spec.o)),
         _ => spec.desc(),
@@ -129,7 +128,8 @@ pub fn run_case(ctx: &Ctx, idx: u64) -> Vec<CaseOut> {
         for pi in 0..nparts {
             let partition = gen::gen_partition(&mut r, data.len());
             let nonempty = partition.iter().filter(|&&n| n > 0).count();
-            let tag = if has_bcj && nonempty > 1 { "[bcj-filter+multi-write]" } else { "" };
+            let exposed = matches!(&c, Container::Xz { filters, .. } if c02::bcj_multi_write_exposed(filters, nonempty));
+            let tag = if exposed { "[bcj-filter+multi-write]" } else { "" };
             let cell = format!("{cname}|partition");
             let desc = format!("{desc0}: partition#{pi} {} writes first={:?}", partition.len(), &partition[..partition.len().min(6)]);
             let sp = spec.clone();
